@@ -3,6 +3,8 @@ import AgVerif.Model.Order
 import AgVerif.Model.Intervals
 import AgVerif.Model.DerivedSeq
 import AgVerif.Model.IfStruct
+import AgVerif.Model.SwitchStruct
+import AgVerif.Model.LoopBodies
 open AgVerif AgVerif.Proto AgVerif.Order
 
 /-- "1,2,3" → [1,2,3]; "-" → [] -/
@@ -32,6 +34,20 @@ def lnodes (s : String) : Option (List (Nat × LNode)) :=
     | [n, c, t, f] => do
         let n ← n.toNat?; let c ← c.toNat?; let t ← t.toNat?; let f ← f.toNat?
         pure (n, ⟨c != 0, t, f⟩)
+    | _ => none
+
+/-- 0 stands for `None` -/
+def optN (n : Nat) : Option Nat := if n == 0 then none else some n
+def showOpt (o : Option Nat) : String := match o with | some n => toString n | none => "0"
+
+/-- "k:v.v;k:v" → [(k,[v,v]),(k,[v])]; "-" → [] -/
+def ntcs (s : String) : Option (List (Nat × List Nat)) :=
+  if s == "-" then some [] else
+  (s.splitOn ";").mapM fun p => match p.splitOn ":" with
+    | [k, vs] => do
+        let k ← k.toNat?
+        let vs ← (if vs == "" then some [] else (vs.splitOn ".").mapM String.toNat?)
+        pure (k, vs)
     | _ => none
 
 def handle (line : String) : String :=
@@ -112,6 +128,31 @@ def handle (line : String) : String :=
       (if fol.isEmpty then "-" else ",".intercalate fol) ++ " U " ++
         showCsv ((List.range top).filter fun n => st.unresolved.contains n)
     | _, _, _, _, _ => "bad-op"
+  | ["swst", es, entry, sws, idoms, nums] => match pairs ">" es, entry.toNat?, csv sws, pairs "=" idoms, pairs "=" nums with
+    | some es, some entry, some sws, some idoms, some nums =>
+      -- idoms value 0 = None (node ids start at 1)
+      let post := postOrder (sucsOf es) entry (4 * es.length + 8)
+      let npreds := fun n => (es.filter (fun e => e.2 == n)).length
+      let idomsO : List (Nat × Option Nat) := idoms.map fun p => (p.1, if p.2 == 0 then none else some p.2)
+      let fuel := 2 * (nums.foldl (fun m p => max m p.2) 0) + 2
+      let top := (nums.foldl (fun m p => max m p.1) entry) + 1
+      (match SwitchStruct.switchStruct id post (fun n => sws.contains n) (sucsOf es) idomsO npreds (lookupD nums) fuel with
+       | none => "err"
+       | some st =>
+         -- the set `unresolved` is local to switch_struct: only the follow attributes are observable
+         let fol := (List.range top).filterMap fun n => (st.follow n).map fun f => toString n ++ ">" ++ toString f
+         (if fol.isEmpty then "-" else ",".intercalate fol))
+    | _, _, _, _, _ => "bad-op"
+  | ["uattr", kind, latch, fol, ln, tf, cases, ntc, nmap] =>
+    match latch.toNat?, csv fol, csv ln, csv tf, csv cases, ntcs ntc, pairs "=" nmap with
+    | some latch, some fol, some ln, some [t, f], some cases, some ntc, some nmap =>
+      let k := if kind == "c" then LoopBodies.Kind.cond else if kind == "s" then LoopBodies.Kind.switch else LoopBodies.Kind.base
+      let r := LoopBodies.updateAttr k nmap ⟨optN latch, fol.map optN, ln, optN t, optN f, cases, ntc⟩
+      showOpt r.latch ++ "|" ++ ",".intercalate (r.follow.map showOpt) ++ "|" ++ showCsv r.loopNodes ++ "|" ++
+        showOpt r.tru ++ "," ++ showOpt r.fls ++ "|" ++ showCsv r.cases ++ "|" ++
+        (if r.nodeToCase.isEmpty then "-" else ";".intercalate (r.nodeToCase.map fun p =>
+          toString p.1 ++ ":" ++ ".".intercalate (p.2.map toString)))
+    | _, _, _, _, _, _, _ => "bad-op"
   | _ => "bad-op"
 
 def main : IO Unit := runMain handle
